@@ -1,7 +1,7 @@
 """c02 — generated Flow code against the flow semantics; see gen_common.py."""
 import gen_common
 
-DEP_FILES = ["FlowSemModel.v", "FlowOpModel.v", "FlowOpProofs.v"]
+DEP_FILES = ["FlowSemModel.v", "FlowOpModel.v", "FlowOpProofs.v", "FlowBridge.v"]
 PID = "C02"
 
 
